@@ -127,6 +127,7 @@ def sem_literal(kind, imm):
 def sem_unpriv_post(kind, offset):
     """ARM encodings of LDRHT & co: postindex = TRUE (always write-back)"""
     def sem(S, f):
+        S.unpriv_access = True  # MemU_unpriv: User permissions whatever the mode
         S.unpredictable(S.is_mode('hyp'))
         n = r4(f['Rn'])
         t, t2 = regs_of(f)
@@ -142,6 +143,7 @@ def sem_unpriv_offset(kind, offset):
     inner = sem_offset(kind, offset)
 
     def sem(S, f):
+        S.unpriv_access = True
         S.unpredictable(S.is_mode('hyp'))
         inner(S, f)
     return sem
